@@ -91,7 +91,7 @@ impl radio::PhyRxTx for CRadio {
         self.rxc_delivered += 1;
         self.step()?;
         let n: usize = kani::any();
-        kani::assume(n <= 255);
+        kani::assume(n <= _rx_buf.len());
         Ok((n, radio::RxQuality::new(kani::any(), kani::any())))
     }
     async fn rx_single(&mut self, _buf: &mut [u8]) -> Result<radio::RxStatus, ()> {
@@ -99,7 +99,7 @@ impl radio::PhyRxTx for CRadio {
         self.step()?;
         if kani::any() {
             let n: usize = kani::any();
-            kani::assume(n <= 255);
+            kani::assume(n <= _buf.len());
             Ok(radio::RxStatus::Rx(n, radio::RxQuality::new(kani::any(), kani::any())))
         } else {
             Ok(radio::RxStatus::RxTimeout)
@@ -194,7 +194,7 @@ fn async_rxc_listen() {
     let start: u32 = kani::any();
     reset_ghosts(start);
     let radio = CRadio::new(kani::any(), 3);
-    let mut dev: Device<CRadio, MTimer, NoRng, 256, 2> =
+    let mut dev: Device<CRadio, MTimer, NoRng, 64, 1> =
         Device::new(region::Configuration::new(region::Region::EU868), radio, MTimer, NoRng);
     dev.enable_class_c();
     let r = block_on(dev.rxc_listen());
@@ -273,20 +273,20 @@ fn stub_handle_rxc_join<const N: usize, const D: usize>(
 // class-c feature compiled in is the thorough-tier harness async_send_class_c) ---------------------
 
 //@h id=async_between_windows_c props=C06,C07,C10 tier=quick build=dev-eu868 cost=240 timeout=1800
-//@bounds one Device::between_windows(duration) on a joined Class C device, arbitrary duration and uplink counter: up to two frames heard before the timer fires (each rejected, accepted or hitting counter exhaustion) or silence (futures::select decided both ways), the radio failing at an arbitrary call or not at all
+//@bounds one Device::between_windows(duration) on a joined Class C device, arbitrary duration and uplink counter: at most one frame heard before the timer fires (each rejected, accepted or hitting counter exhaustion) or silence (futures::select decided both ways), the radio failing at an arbitrary call or not at all
 //@encodes async_device::Device::between_windows (class-c: futures::select of PhyRxTx::rx_continuous against Timer::at, rxc_listen_until_timeout), handle_mac_response
 //@assumes Mac::{handle_rxc, get_rxc_config, rx2_complete} replaced by contract stubs; the timer future is ready when polled (it wins the select exactly when the radio stays pending)
 #[kani::proof]
 #[kani::stub(Mac::handle_rxc, stub_handle_rxc)]
 #[kani::stub(Mac::get_rxc_config, stub_get_rxc_config)]
 #[kani::stub(Mac::rx2_complete, stub_rx2_complete)]
-#[kani::unwind(5)]
+#[kani::unwind(4)]
 fn async_between_windows_c() {
     crate::mac::verif_kani_lorawan_device_mac_common::vinit();
     let start: u32 = kani::any();
     reset_ghosts(start);
-    let radio = CRadio::new(kani::any(), 2);
-    let mut dev: Device<CRadio, MTimer, NoRng, 256, 2> =
+    let radio = CRadio::new(kani::any(), 1);
+    let mut dev: Device<CRadio, MTimer, NoRng, 64, 1> =
         Device::new(region::Configuration::new(region::Region::EU868), radio, MTimer, NoRng);
     dev.enable_class_c();
     let r = block_on(dev.between_windows(kani::any()));
@@ -304,7 +304,8 @@ fn async_between_windows_c() {
             crate::vcheck!(C_RXC_CALLS.v == dev.radio.rxc_delivered as u32 - if faulted && dev.radio.fail_at > 0 { 1 } else { 0 },
                 "C07: every frame heard is offered to the MAC and the wait goes on until the timer fires");
         }
-        kani::cover!(r.is_ok() && C_RXC_NOUPDATE.v == 1 && C_RXC_ACCEPTED.v == 1, "one foreign and one accepted frame before the window");
+        kani::cover!(r.is_ok() && C_RXC_ACCEPTED.v == 1, "a frame accepted before the window");
+        kani::cover!(r.is_ok() && C_RXC_NOUPDATE.v == 1, "a foreign frame before the window");
         kani::cover!(r.is_ok() && C_RXC_CALLS.v == 0, "silence until the timer fires");
     }
 }
@@ -320,7 +321,7 @@ fn async_window_complete_c() {
     crate::mac::verif_kani_lorawan_device_mac_common::vinit();
     reset_ghosts(kani::any());
     let radio = CRadio::new(kani::any(), 0);
-    let mut dev: Device<CRadio, MTimer, NoRng, 256, 2> =
+    let mut dev: Device<CRadio, MTimer, NoRng, 64, 1> =
         Device::new(region::Configuration::new(region::Region::EU868), radio, MTimer, NoRng);
     let class_c: bool = kani::any();
     if class_c {
@@ -339,19 +340,19 @@ fn async_window_complete_c() {
 }
 
 //@h id=async_between_windows_unjoined props=C07,C11 tier=quick build=dev-eu868 cost=240 timeout=1800
-//@bounds one Device::between_windows(duration) with Class C enabled on a device that has no session yet (it is waiting for the windows of its JoinRequest): up to two frames heard before the timer fires or silence, fault-free radio: a frame heard there cannot be for this device, it has no effect and the wait for the join window goes on (Device::join around it: async_join)
+//@bounds one Device::between_windows(duration) with Class C enabled on a device that has no session yet (it is waiting for the windows of its JoinRequest): at most one frame heard before the timer fires, or silence, fault-free radio: a frame heard there cannot be for this device, it has no effect and the wait for the join window goes on (Device::join around it: async_join)
 //@encodes async_device::Device::between_windows (class-c), handle_mac_response
 //@assumes Mac::handle_rxc replaced by its contract for a device without a session (NotJoined, nothing changes: decided by rxc_not_joined); Mac::get_rxc_config by its contract stub; timers immediate
 #[kani::proof]
 #[kani::stub(Mac::handle_rxc, stub_handle_rxc_join)]
 #[kani::stub(Mac::get_rxc_config, stub_get_rxc_config)]
 #[kani::stub(Mac::rx2_complete, stub_rx2_complete_join_c)]
-#[kani::unwind(5)]
+#[kani::unwind(4)]
 fn async_between_windows_unjoined() {
     crate::mac::verif_kani_lorawan_device_mac_common::vinit();
     reset_ghosts(0);
-    let radio = CRadio::new(usize::MAX, 2);
-    let mut dev: Device<CRadio, MTimer, NoRng, 256, 2> =
+    let radio = CRadio::new(usize::MAX, 1);
+    let mut dev: Device<CRadio, MTimer, NoRng, 64, 1> =
         Device::new(region::Configuration::new(region::Region::EU868), radio, MTimer, NoRng);
     dev.enable_class_c();
     let r = block_on(dev.between_windows(kani::any()));
@@ -360,6 +361,6 @@ fn async_between_windows_unjoined() {
         crate::vcheck!(matches!(r, Ok(None)), "C07: nothing is reported for frames heard without a session");
         crate::vcheck!(dev.radio.tx_calls == 0 && dev.radio.low_power_calls == 0 && C_LOG.v.1 == 1, "C07: frames heard while waiting do not reconfigure the radio");
         crate::vcheck!(C_RXC_CALLS.v == dev.radio.rxc_delivered as u32, "C07: every frame heard is offered to the MAC and the wait goes on until the timer fires");
-        kani::cover!(r.is_ok() && C_RXC_CALLS.v == 2, "two frames heard while waiting for a join window");
+        kani::cover!(r.is_ok() && C_RXC_CALLS.v == 1, "a frame heard while waiting for a join window");
     }
 }
